@@ -83,9 +83,51 @@ def quantifier_sites(cp):
     return "+".join(sorted(sites)) or "nowhere"
 
 
-def wellformed(cp):
-    """independent well-formedness check of a compiled problem: unique names, declared references"""
+def rebound_variables(pr):
+    """variables bound by a quantifier that lies in the scope of another quantifier binding the same variable (same name and type), over every
+    expression of the problem"""
+    out = set()
+
+    def walk(e, outer):
+        if e.is_exists() or e.is_forall():
+            here = set(e.variables())
+            out.update(v for v in here if v in outer)
+            outer = outer | here
+        for a in e.args:
+            walk(a, outer)
+    for a in pr.actions:
+        for c in getattr(a, "preconditions", []):
+            walk(c, frozenset())
+        conds = getattr(a, "conditions", None)
+        if isinstance(conds, dict):
+            for cl in conds.values():
+                for c in cl:
+                    walk(c, frozenset())
+        effs = getattr(a, "effects", [])
+        if isinstance(effs, dict):
+            effs = [e for el in effs.values() for e in el]
+        for e in effs:
+            for x in (e.fluent, e.value, e.condition):
+                walk(x, frozenset(e.forall) if getattr(e, "forall", None) else frozenset())
+    for g in pr.goals:
+        walk(g, frozenset())
+    for tc in getattr(pr, "trajectory_constraints", []):
+        walk(tc, frozenset())
+    return out
+
+
+def wellformed(cp, orig=None):
+    """independent well-formedness check of a compiled problem: unique names, declared references; with the original problem given: no variable
+    is bound again inside the scope of a quantifier binding the same variable unless the original problem already does that (a compiler's fresh
+    variable that captures -- or is captured by -- a variable of the model)"""
     bad = []
+    if orig is not None:
+        try:
+            again = {v.name for v in rebound_variables(cp)} - {v.name for v in rebound_variables(orig)}
+        except Exception:  # noqa: an expression shape this scan does not cover
+            again = set()
+        if again:
+            bad.append(f"variable name(s) {sorted(again)} bound again inside the scope of a quantifier binding the same variable (not so in the original problem)")
     names = [f.name for f in cp.fluents] + [a.name for a in cp.actions] + [o.name for o in cp.all_objects] + \
             [t.name for t in cp.user_types]
     dup = {n for n in names if names.count(n) > 1}
@@ -152,7 +194,7 @@ def run(tier, seed, want):
                 r8 = res["C08"]
                 r8["evaluations"] += 1
                 r8["nontrivial"].add((label, s))
-                bad = wellformed(cp)
+                bad = wellformed(cp, pr)
                 if any(r.plan_back_conversion is None for r in results):
                     bad.append("no plan_back_conversion on the compilation result")
                 for b in bad:
@@ -201,14 +243,31 @@ def run(tier, seed, want):
                 if "C06" in want:
                     r6 = res["C06"]
                     r6["evaluations"] += 1
+                    oracle = ""
                     try:
                         ok = RC.is_valid(pr, oplan)
                     except (seqsem.Ambiguous, pddl3.Ambiguous):
-                        continue
+                        if RC.CK.UNDEFINED_INITIAL_NUMERIC_REMOVING not in cks:
+                            continue
+                        # the reference semantics leaves reads of an undefined fluent open; THIS compiler's documented contract is that such a
+                        # read makes the action inapplicable, which is what the library's own sequential validator implements: use it as the
+                        # oracle for the original side (labelled in the message)
+                        try:
+                            from unified_planning.engines.plan_validator import SequentialPlanValidator
+                            from unified_planning.engines.results import ValidationResultStatus
+                            from unified_planning.plans import SequentialPlan, ActionInstance
+                            with warnings.catch_warnings():
+                                warnings.simplefilter("ignore")
+                                vr = SequentialPlanValidator(environment=pr.environment).validate(
+                                    pr, SequentialPlan([ActionInstance(a_, tuple(ps_)) for a_, ps_ in oplan]))
+                            ok = vr.status == ValidationResultStatus.VALID
+                            oracle = " (original side judged by the library's sequential validator: the plan reads an undefined fluent)"
+                        except Exception:  # noqa
+                            continue
                     if cplan:
                         r6["nontrivial"].add((label, s, tuple(RC.pname(cplan))))
                     if not ok:
-                        r6["failures"].append({"what": f"{label} seed {s}: a plan valid for the compiled problem maps back to an invalid plan "
+                        r6["failures"].append({"what": f"{label} seed {s}: a plan valid for the compiled problem maps back to an invalid plan{oracle} "
                                                        f"[{cks[0].name}:{plan_tags(pr, oplan)}]", "concrete": desc | {"compiled_plan": RC.pname(cplan), "mapped_back": RC.pname(oplan), "compiled": str(cp)},
                                                "observed": RC.pname(oplan)})
                     elif len(r6["samples"]) < 3 and cplan:
